@@ -493,12 +493,12 @@ func constantInt64(c *ssa.Const) (int64, bool) {
 
 type storeSet map[*ssa.Store]bool
 
-var reachCache = map[*ssa.Alloc]map[*ssa.BasicBlock]storeSet{}
+var reachCache = map[ssa.Value]map[*ssa.BasicBlock]storeSet{}
 
 // reachingIn computes, per block, the set of stores to local `a` (made in a's
 // own function) that may reach the block entry. A nil key marks "no store yet"
 // (the zero value).
-func reachingIn(a *ssa.Alloc) map[*ssa.BasicBlock]storeSet {
+func reachingIn(a ssa.Value) map[*ssa.BasicBlock]storeSet {
 	if r, ok := reachCache[a]; ok {
 		return r
 	}
@@ -553,7 +553,7 @@ func reachingIn(a *ssa.Alloc) map[*ssa.BasicBlock]storeSet {
 }
 
 // storesReaching returns the stores to `a` that may reach instruction `at`.
-func storesReaching(a *ssa.Alloc, at ssa.Instruction) storeSet {
+func storesReaching(a ssa.Value, at ssa.Instruction) storeSet {
 	b := at.Block()
 	var last *ssa.Store
 	for _, x := range b.Instrs {
@@ -603,6 +603,18 @@ func sourcesOf(v ssa.Value) map[ssa.Value]bool {
 					for st := range storesReaching(a, x) {
 						if st == nil {
 							out[nil] = true
+						} else {
+							walk(st.Val)
+						}
+					}
+					return
+				}
+				if fv, ok := x.X.(*ssa.FreeVar); ok {
+					// a captured variable: stores made by this function that reach the load; what the
+					// creator or other closures stored before is unknown (the load itself stands for it)
+					for st := range storesReaching(fv, x) {
+						if st == nil {
+							out[x] = true
 						} else {
 							walk(st.Val)
 						}
